@@ -673,6 +673,53 @@ func (fr *frame) makeIter(x *ssa.Range, g *Term) Value {
 func (fr *frame) execNext(b *ssa.BasicBlock, x *ssa.Next, g *Term) {
 	it := fr.get(x.Iter).(IterV).it
 	tup := x.Type().(*types.Tuple)
+	if x.IsString && fr.e.rangeUTF8 {
+		// utf8.DecodeRuneInString at a symbolic byte offset
+		s := it.str
+		if it.posT == nil {
+			it.posT = BV(IntW, 0)
+		}
+		idx := it.posT
+		at := func(off uint64) (*Term, *Term) { // byte at idx+off, and whether it exists
+			j := BinBV("bvadd", idx, BV(IntW, off))
+			var b *Term = BV(8, 0)
+			for k := len(s.b) - 1; k >= 0; k-- {
+				b = Ite(Eq(j, BV(IntW, uint64(k))), s.b[k], b)
+			}
+			in := Cmp("bvult", j, s.n)
+			if len(s.b) == 0 {
+				in = False
+			} else {
+				in = And(in, Cmp("bvult", j, BV(IntW, uint64(len(s.b)))))
+			}
+			return b, in
+		}
+		rng := func(b *Term, lo, hi uint64) *Term {
+			return And(Cmp("bvule", BV(8, lo), b), Cmp("bvule", b, BV(8, hi)))
+		}
+		b0, ok := at(0)
+		b1, in1 := at(1)
+		b2, in2 := at(2)
+		b3, in3 := at(3)
+		cont := func(b *Term) *Term { return rng(b, 0x80, 0xBF) }
+		low := func(b *Term, mask uint64) *Term { return ZExt(BinBV("bvand", b, BV(8, mask)), 32) }
+		sh := func(t *Term, n uint64) *Term { return BinBV("bvshl", t, BV(32, n)) }
+		or := func(a, b *Term) *Term { return BinBV("bvor", a, b) }
+		is1 := Cmp("bvult", b0, BV(8, 0x80))
+		is2 := And(rng(b0, 0xC2, 0xDF), in1, cont(b1))
+		b1ok3 := Ite(Eq(b0, BV(8, 0xE0)), rng(b1, 0xA0, 0xBF), Ite(Eq(b0, BV(8, 0xED)), rng(b1, 0x80, 0x9F), cont(b1)))
+		is3 := And(rng(b0, 0xE0, 0xEF), in1, in2, b1ok3, cont(b2))
+		b1ok4 := Ite(Eq(b0, BV(8, 0xF0)), rng(b1, 0x90, 0xBF), Ite(Eq(b0, BV(8, 0xF4)), rng(b1, 0x80, 0x8F), cont(b1)))
+		is4 := And(rng(b0, 0xF0, 0xF4), in1, in2, in3, b1ok4, cont(b2), cont(b3))
+		r2 := or(sh(low(b0, 0x1F), 6), low(b1, 0x3F))
+		r3 := or(or(sh(low(b0, 0x0F), 12), sh(low(b1, 0x3F), 6)), low(b2, 0x3F))
+		r4 := or(or(sh(low(b0, 0x07), 18), sh(low(b1, 0x3F), 12)), or(sh(low(b2, 0x3F), 6), low(b3, 0x3F)))
+		r := Ite(is1, ZExt(b0, 32), Ite(is2, r2, Ite(is3, r3, Ite(is4, r4, BV(32, 0xFFFD)))))
+		w := Ite(is1, BV(IntW, 1), Ite(is2, BV(IntW, 2), Ite(is3, BV(IntW, 3), Ite(is4, BV(IntW, 4), BV(IntW, 1)))))
+		it.posT = BinBV("bvadd", idx, w)
+		fr.set(x, g, TupleV{ok, idx, r})
+		return
+	}
 	if x.IsString {
 		s := it.str
 		k := it.pos
